@@ -653,6 +653,7 @@ func (s *ResettableKeystore) handleResetOp(op resetOp) {
 	if op.success {
 		// Swap the active datastore.
 		oldDs := s.ds
+		oldSize := s.size
 		s.ds = s.altDs
 		s.altDs = oldDs
 		s.size = int(s.altSize.Load())
@@ -666,6 +667,13 @@ func (s *ResettableKeystore) handleResetOp(op resetOp) {
 		// Write the active namespace marker
 		if err := s.metaDs.Put(ctx, activeNamespaceKey, activeValue); err != nil {
 			s.logger.Errorf("keystore: failed to persist active namespace marker: %v", err)
+			// The persisted marker still designates the previous namespace: swap
+			// back, so that it stays active and is not torn down below. Otherwise
+			// a restart would open the previous namespace after it was emptied.
+			s.altDs = s.ds
+			s.ds = oldDs
+			s.size = oldSize
+			s.activeNamespace = 1 - s.activeNamespace
 		}
 		// Sync to ensure marker is persisted
 		if err := s.metaDs.Sync(ctx, activeNamespaceKey); err != nil {
